@@ -156,11 +156,15 @@ class MatchSubject(Entity):
         @std.sequential(std.Clock(self.clk))
         def proc():
             self.q <<= f()
+        @std.sequential(std.Clock(self.clk))
+        def proc2():
             match nxw():
                 case _:
                     self.r <<= w
 t = std.VhdlCompiler.to_string(MatchSubject)
-print("INCREMENTS-V", t.count("(v) + (1)"), "INCREMENTS-W", t.count("(w) + (1)"))
+p1 = t[t.index("proc: process"):t.index("proc2: process")]
+# the chain is nested if / else: the subject is evaluated once iff the increment is emitted once in the whole process
+print("INCREMENTS-V", p1.count("(v) + (1)"), "INCREMENTS-W", t.count("(w) + (1)"))
 '''
 
 
